@@ -11,7 +11,8 @@ DECIDED = ("R7.1 must-pass-through: on every normal path of the installation ent
            "effect — or, alternatively, every `times` arm resets its static before building the verifier; R7.2 the counter has no other "
            "writer: in every generated fake the only access is the one RMW (C06 R6.1), in the library the only write is the reset; R7.3 the installation's exclusive window on the shared static extends to its verdict: in the "
            "injector, the field holding the verifiers (the type whose destructor reads the counter) is dropped before the field holding the "
-           "MutexGuard (declaration order, or emptied by the explicit destructor)")
+           "MutexGuard (declaration order, or emptied by the explicit destructor); R7.4 the reset reaches every counter: each fake! arm whose "
+           "generated function counts on a static hands out a verifier carrying that very static (C06 R6.4)")
 NOT_DECIDED = ("two simultaneously live installations built from the same expansion site share one static (inherent to the macro design; "
                "not claimed)")
 
@@ -44,6 +45,11 @@ def run_one(ck, tm, tier, ws):
     if in_expansion:
         ck.ob("R7.1", "reset-in-expansion", tm.target, True, "all %d `times` arms reset their static before building the verifier" % arms_total)
     ck.floor("R7.1", "install-paths-with-a-counter", n_paths, 1)
+    # R7.4 the reset reaches every counter: it goes through the verifier, so every arm whose fake counts must hand out a verifier
+    # that carries that counter (C06 R6.4)
+    from .c06 import counting_fakes_hand_out_their_counter
+    k4 = counting_fakes_hand_out_their_counter(ck, tm, tier, ws, "R7.4")
+    ck.floor("R7.4", "counting-arms", k4, 28)
     # R7.2 other writers in the library
     writers = []
     for b in tm.facts.fn_bodies():
@@ -135,6 +141,16 @@ def install_resets_counter(ck, tm, rule, in_expansion=False):
             stores = [e for e in v.trace if e.kind == "ext" and "atomic::Atomic" in e.name and e.name.split("::")[-1] in ("store", "swap")]
             good = [e for e in stores if isinstance(e.args[1], Int) and e.args[1].is_const() and e.args[1].cval() == 0
                     and (not eff or e.idx < min(x.idx for x in eff))]
+            # ... or the path has just read the counter and continues on the edge where it is zero ("skip the write if already clean")
+            first_eff = min(x.idx for x in eff) if eff else None
+            for ld in [e for e in v.trace if e.kind == "ext" and "atomic::Atomic" in e.name and e.name.split("::")[-1] == "load"
+                       and (first_eff is None or e.idx < first_eff) and isinstance(e.ret, Int)]:
+                for d_ in v.decisions:
+                    c_ = d_[0]
+                    if c_.op in ("eq", "ne") and any(x == ld.ret.e for x in c_.args) and any(isinstance(x, E) and x.is_const() and x.val == 0 for x in c_.args) \
+                            and ((c_.op == "eq" and d_[1] == 1) or (c_.op == "ne" and d_[1] == 0)) \
+                            and not any(s_.idx > ld.idx and (first_eff is None or s_.idx < first_eff) for s_ in stores if s_ not in good):
+                        good.append(ld)
             has_counter = None
             for d_ in dv:
                 # CallCountVerifier::WithCount is variant 0 (first declared); read the variant list to be sure
